@@ -68,6 +68,8 @@ func run() (code int) {
 		return debugDump("/repo", os.Args[2:])
 	case "fsx":
 		return debugFsx("/repo")
+	case "exits":
+		return debugExits("/repo")
 	case "guards":
 		return debugGuards("/repo")
 	case "det":
